@@ -119,22 +119,84 @@ theorem good_finishCall (out : Option Hint) (r : Res) : Good (fun c s => finishC
   · exact good_ret _
   · exact good_ret _
 
-theorem selectArm_fails (v : V) (arms : List Arm) : ∀ s, (selectArm v arms s).2.fails = s.fails := by
-  induction arms with
+theorem setOpt_fails (s : St) (x : Option Var) (v : V) : (s.setOpt x v).fails = s.fails := by
+  cases x <;> rfl
+
+theorem pat_fails : ∀ k,
+    (∀ p v s, (patM k p v s).2.fails = s.fails) ∧ (∀ ps vs s, (patsM k ps vs s).2.fails = s.fails) := by
+  intro k
+  induction k with
+  | zero => exact ⟨fun p v s => by simp [patM], fun ps vs s => by simp [patsM]⟩
+  | succ k ih =>
+    constructor
+    · intro p v s
+      cases p with
+      | b x h => simp only [patM]; exact setOpt_fails s x v
+      | lit n => simp [patM]
+      | tup ps =>
+        simp only [patM]
+        split
+        · split
+          · exact ih.2 _ _ _
+          · rfl
+        · rfl
+        · rfl
+    · intro ps vs s
+      cases ps with
+      | nil => simp [patsM]
+      | cons p ps =>
+        simp only [patsM]
+        have h1 := ih.1 p (vs.headD .null) s
+        split
+        · next s1 heq =>
+          rw [heq] at h1
+          rw [ih.2 ps vs.tail s1]; exact h1
+        · exact h1
+
+theorem altsM_fails (k : Nat) (alts : List (List P)) (vs : List V) : ∀ s, (altsM k alts vs s).2.fails = s.fails := by
+  induction alts with
   | nil => intro s; rfl
-  | cons a rest ih =>
+  | cons alt alts ih =>
     intro s
-    cases a with
-    | mk p body =>
-      simp only [selectArm]
-      have hp : (patMatch p v s).2.fails = s.fails := by
-        cases p with
-        | wild h => cases h <;> rfl
-        | bind x h => cases h <;> rfl
-        | lit n => rfl
-      split
-      · next s1 heq => rw [← hp, heq]
-      · next s1 heq => rw [ih s1, ← hp, heq]
+    simp only [altsM]
+    have h1 := (pat_fails k).2 alt vs s
+    split
+    · next s1 heq =>
+      rw [heq] at h1
+      rw [ih s1]; exact h1
+    · exact h1
+
+theorem armM_fails (k : Nat) (alts : List (List P)) (vs : List V) (s : St) : (armM k alts vs s).2.fails = s.fails := by
+  unfold armM
+  split
+  · rfl
+  · exact altsM_fails k alts vs s
+
+theorem good_bindArg : ∀ k,
+    (∀ p v, Good (fun c s => bindArg c k p v s)) ∧ (∀ ps vs, Good (fun c s => bindArgs c k ps vs s)) := by
+  intro k
+  induction k with
+  | zero =>
+    exact ⟨fun p v => by simp only [bindArg]; exact good_ret _, fun ps vs => by simp only [bindArgs]; exact good_ret _⟩
+  | succ k ih =>
+    constructor
+    · intro p v
+      cases p with
+      | b x h => simp only [bindArg]; exact good_bindOne _ _
+      | lit n => simp only [bindArg]; exact good_ret _
+      | tup ps =>
+        simp only [bindArg]
+        split
+        · split
+          · exact ih.2 _ _
+          · exact good_ret _
+        · exact good_ret _
+    · intro ps vs
+      cases ps with
+      | nil => simp only [bindArgs]; exact good_ret _
+      | cons p ps =>
+        simp only [bindArgs]
+        exact good_andThen (ih.1 p _) (fun _ => ih.2 ps _)
 
 theorem selectCatch_fails (cv : V) (typed : List CatchArm) (x : Option Var) (final : Expr) :
     ∀ s, (selectCatch cv typed x final s).2.fails = s.fails := by
@@ -156,6 +218,8 @@ structure GoodAt (F : Funs) (n : Nat) : Prop where
   forItems : ∀ bs xs body last, Good (fun c s => forItems c F n bs xs body last s)
   forGen : ∀ bs i genv st pc body last, Good (fun c s => forGen c F n bs i genv st pc body last s)
   genNext : ∀ i st pc, Good (fun c s => genNext c F n i st pc s)
+  matchArms : ∀ vs arms, Good (fun c s => matchArms c F n vs arms s)
+  unpackGen : ∀ bs i genv st pc, Good (fun c s => unpackGen c F n bs i genv st pc s)
 
 theorem goodAt_zero (F : Funs) : GoodAt F 0 := by
   constructor
@@ -164,6 +228,8 @@ theorem goodAt_zero (F : Funs) : GoodAt F 0 := by
   · intro bs xs body last; simp only [forItems]; exact good_ret _
   · intro bs i genv st pc body last; simp only [forGen]; exact good_ret _
   · intro i st pc; simp only [genNext]; exact good_ret _
+  · intro vs arms; simp only [matchArms]; exact good_ret _
+  · intro bs i genv st pc; simp only [unpackGen]; exact good_ret _
 
 theorem good_eval_succ (F : Funs) (n : Nat) (ih : GoodAt F n) (e : Expr) :
     Good (fun c s => eval c F (n + 1) e s) := by
@@ -188,6 +254,22 @@ theorem good_eval_succ (F : Funs) (n : Nat) (ih : GoodAt F n) (e : Expr) :
     simp only [eval]
     refine good_andThen (ih.eval e) (fun v => good_andThen (good_assert_pre h v _ ?_) (fun _ => good_ret _))
     intro s; cases x <;> rfl
+  | letTemps bs es =>
+    simp only [eval]
+    refine good_andThen (ih.args es) (fun r => ?_)
+    split
+    · split
+      · exact good_ret _
+      · exact good_andThen (good_bindMany _ _) (fun _ => good_ret _)
+    · exact good_ret _
+  | letUnpack bs e =>
+    simp only [eval]
+    refine good_andThen (ih.eval e) (fun v => ?_)
+    split
+    · exact good_andThen (ih.unpackGen _ _ _ _ _) (fun _ => good_ret _)
+    · split
+      · exact good_andThen (good_bindMany _ _) (fun _ => good_ret _)
+      · exact good_ret _
   | seq a b =>
     simp only [eval]
     exact good_andThen (ih.eval a) (fun _ => ih.eval b)
@@ -216,7 +298,7 @@ theorem good_eval_succ (F : Funs) (n : Nat) (ih : GoodAt F n) (e : Expr) :
       · split
         · exact good_ret _
         · apply good_restore_self
-          refine good_andThen (good_pre _ (fun _ => rfl) (good_bindMany _ _)) (fun _ => ?_)
+          refine good_andThen (good_pre _ (fun _ => rfl) ((good_bindArg _).2 _ _)) (fun _ => ?_)
           exact good_bindR (ih.eval _) (fun r => good_finishCall _ r)
       · exact good_ret _
     · split
@@ -235,12 +317,11 @@ theorem good_eval_succ (F : Funs) (n : Nat) (ih : GoodAt F n) (e : Expr) :
     split
     · exact good_bindR (good_const _ (selectCatch_fails _ _ _ _)) (fun blk => ih.eval blk)
     · exact good_ret _
-  | matchE scrut arms =>
+  | matchE scruts arms =>
     simp only [eval]
-    refine good_andThen (ih.eval scrut) (fun v => ?_)
-    refine good_bindR (good_const _ (selectArm_fails _ _)) (fun sel => ?_)
+    refine good_andThen (ih.args scruts) (fun r => ?_)
     split
-    · exact ih.eval _
+    · exact ih.matchArms _ _
     · exact good_ret _
 
 theorem goodAt_succ (F : Funs) (n : Nat) (ih : GoodAt F n) : GoodAt F (n + 1) := by
@@ -271,7 +352,7 @@ theorem goodAt_succ (F : Funs) (n : Nat) (ih : GoodAt F n) : GoodAt F (n + 1) :=
     · refine good_andThen ?_ (fun _ => ?_)
       · split
         · exact good_ret _
-        · exact fun s => good_pre (fun s' => { s' with env := [] }) (fun _ => rfl) (good_bindMany _ (s.env.map (·.2))) s
+        · exact fun s => good_pre (fun s' => { s' with env := [] }) (fun _ => rfl) ((good_bindArg _).2 _ (s.env.map (·.2))) s
       · split
         · exact good_ret _
         · exact good_andThen (ih.eval _) (fun v => good_andThen (good_assert _ _) (fun _ => good_const _ (fun _ => rfl)))
@@ -281,6 +362,34 @@ theorem goodAt_succ (F : Funs) (n : Nat) (ih : GoodAt F n) : GoodAt F (n + 1) :=
           · exact good_ret _
           · exact good_ret _
     · exact good_ret _
+  · intro vs arms
+    cases arms with
+    | nil => simp only [matchArms]; exact good_ret _
+    | cons arm rest =>
+      cases arm with
+      | mk alts guard body =>
+        simp only [matchArms]
+        refine good_bindR (good_const _ (armM_fails n alts vs)) (fun m => ?_)
+        cases m with
+        | yes =>
+          cases guard with
+          | none => exact ih.eval body
+          | some g =>
+            refine good_andThen (ih.eval g) (fun gv => ?_)
+            split
+            · exact ih.eval body
+            · exact ih.matchArms _ _
+        | no => exact ih.matchArms _ _
+        | stuck => exact good_ret _
+  · intro bs i genv st pc
+    cases bs with
+    | nil => simp only [unpackGen]; exact good_ret _
+    | cons b bs =>
+      simp only [unpackGen]
+      refine good_andThen (good_restore_self (good_pre _ (fun _ => rfl) (ih.genNext i st pc))) (fun r => ?_)
+      split
+      · exact good_andThen (good_bindOne b _) (fun _ => ih.unpackGen _ _ _ _ _)
+      · exact good_bindMany _ _
 
 theorem goodAt (F : Funs) : ∀ n, GoodAt F n
   | 0 => goodAt_zero F
